@@ -8,7 +8,7 @@
    That every file written by the current code decodes to the content that went in, and that the
    current reader answers the frozen corpus unchanged, is decided by the correspondence run. *)
 From Coq Require Import List NArith.
-Require Import ZV.Bytes ZV.Kernel ZV.Footer ZV.Streams ZV.Chunks ZV.Stored.
+Require Import ZV.Bytes ZV.Kernel ZV.Footer ZV.Streams ZV.Chunks ZV.Stored ZV.Opt ZV.Spec ZV.Layout ZV.LayoutProof.
 Import ListNotations.
 Open Scope N_scope.
 
@@ -20,9 +20,9 @@ Theorem C09_bigendian_partial : forall k n rest, n < 256 ^ N.of_nat k -> unbe k 
 Proof. exact unbe_be. Qed.
 Print Assumptions C09_bigendian_partial.
 
-Theorem C09_footer_partial : forall mem f, wf_footer f -> crc_update (crc32 mem) (footer_body f) < 256 ^ 4 ->
+Theorem C09_footer_partial : forall mem f, wf_footer f -> Forall (fun b => b < 256) mem ->
   Footer.parse (persist mem f) = Some (mem, f, crc32 (mem ++ footer_body f)).
-Proof. exact footer_roundtrip. Qed.
+Proof. exact footer_roundtrip_bytes. Qed.
 Print Assumptions C09_footer_partial.
 
 Theorem C09_single_hit_partial : forall d n, d < 2 ^ 31 -> n < 2 ^ 31 ->
@@ -54,3 +54,24 @@ Theorem C09_stored_meta_partial : forall vs, Forall wf_sval vs -> u64 (Stored.nl
   dec_meta (length vs) (enc_meta 0 vs) (data_of vs) = Some vs.
 Proof. exact stored_roundtrip. Qed.
 Print Assumptions C09_stored_meta_partial.
+
+(* the frozen reader's postings decoder inverts the documented chunked encoding: if chunk c of the
+   freq/norm stream holds the entries of the hits whose document falls in chunk c (document order)
+   and chunk c of the location stream holds the location blocks of those hits that have locations -
+   which is what C01_chunked_coder_partial (props/C01.v) shows the writer's coder produces - then decoding the
+   postings of a strictly ascending list of well-formed hits returns exactly those hits, each with
+   its own frequency, norm (0 when the frequency is 0) and locations resolved to field names *)
+Theorem C09_postings_decoder_roundtrip : forall ft cs, 0 < cs -> forall fch lch (hits : list (shit)),
+  (forall c, chunk_of fch c = F cs c hits) -> (forall c, chunk_of lch c = Lb cs c hits) ->
+  Sorted.StronglySorted N.lt (map fst hits) -> Forall wf_hit hits ->
+  decode_hits ft cs fch lch (map fst hits) (None, [], []) = Opt.mapopt (spec_hit ft) hits.
+Proof. exact postings_stream_roundtrip. Qed.
+Print Assumptions C09_postings_decoder_roundtrip.
+
+(* the framing of a chunked stream (uvarint nChunks, cumulative end offsets, data) read at its offset *)
+Theorem C09_chunked_stream_framing : forall (pre : bytes) chunks rest,
+  pre <> [] -> N.of_nat (length chunks) < max_count ->
+  Forall u64 (LayoutProof.cum_from 0 (map nlenb chunks)) ->
+  stream_chunks (pre ++ enc_stream chunks ++ rest) (N.of_nat (length pre)) = Some chunks.
+Proof. exact chunked_stream_roundtrip. Qed.
+Print Assumptions C09_chunked_stream_framing.
